@@ -37,7 +37,7 @@ SamplesOK(ty) == {s \in Samples(ty) : \A i \in DOMAIN s : i <= Len(s)}
 Rle(xs) == [rle |-> [i \in DOMAIN xs |-> <<xs[i], 1>>], order |-> "asc"]
 
 Styles(fl) == CASE fl \in {"arith", "geo", "harm"} ->
-                     (IF Thorough THEN {"ci", "ops", "meanci", "from_iter", "extend", "append"} ELSE {"ci", "extend", "append"})
+                     (IF Thorough THEN {"ci", "ops", "ops_mean", "ops_append", "meanci", "from_iter", "extend", "append"} ELSE {"ci", "extend", "append", "ops_mean"})
                 [] fl = "paired" -> (IF Thorough THEN {"ci", "extend", "extend_tuple", "append_pair"} ELSE {"ci", "extend"})
                 [] fl = "unpaired" -> (IF Thorough THEN {"ci", "extend", "from_iter", "extend_a_b", "append_a_b", "new", "mut"}
                                        ELSE {"ci", "from_iter", "new"})
